@@ -330,6 +330,12 @@ func (t *Truth) ObserveIssuance(pre *World, o *Obs, post *World, forPID string) 
 		t.Add(Secret{Kind: "rm", Owner: owner, Val: c, Browser: o.Req.Browser, At: now})
 	}
 	for _, m := range o.SMS {
+		if b := post.Browsers[m.Browser]; b != nil {
+			m.For = b.Session["sms_pending"]
+			if m.For == "" {
+				m.For = b.Session["uid"]
+			}
+		}
 		t.SMSLog = append(t.SMSLog, m)
 	}
 }
